@@ -661,6 +661,58 @@ def rule_redeclared(chk, prog, tier):
     r.exhaustive = False
 
 
+# ------------------------------------------------------------------ C10.l subscripts
+
+def rule_subscript(chk, prog, tier):
+    r = chk.rule('C10.l', 'E1[E2]: exactly one operand is a pointer to a complete object type and the other has integer type (in either order); the result designates *(E1 + E2), an lvalue of the pointed-to type; every other pairing is diagnosed', floor=40,
+                 oracle='C11 6.5.2.1p1-2')
+    pf = prog.require_func('postfixexpr', 'expr.c')
+    OPS = ['ptr_int', 'ptr_long', 'ptr_struct', 'ptr_incomplete', 'ptr_void', 'ptr_func', 'int', 'long', 'uchar', 'float', 'struct']
+    for a in OPS:
+        for b in OPS:
+            def runner(it):
+                w = World(prog, it=it, target='x86_64-sysv')
+                st_ = w.mkstruct(size=8, align=4); inc = w.mkstruct(size=0, align=0); inc.obj.f[('incomplete',)] = 1
+                ft = it.call('mktype', [ev(prog, 'TYPEFUNC'), 0]); ft.obj.f.update({('base',): w.t('int'), ('qual',): 0, ('size',): 0, ('align',): 0, ('incomplete',): 0})
+                T = {'ptr_int': w.mkptr(w.t('int')), 'ptr_long': w.mkptr(w.t('long')), 'ptr_struct': w.mkptr(st_), 'ptr_incomplete': w.mkptr(inc), 'ptr_void': w.mkptr(w.t('void')), 'ptr_func': w.mkptr(ft),
+                     'int': w.t('int'), 'long': w.t('long'), 'uchar': w.t('uchar'), 'float': w.t('float'), 'struct': st_}
+                base = w.temp(T[a], 'a'); idx = w.temp(T[b], 'i')
+                seq = ['TLBRACK', 'X', 'TRBRACK', 'TSEMICOLON']; stt = {'i': 0}
+                tokobj = it.gobj('tok')
+                def load():
+                    k = seq[min(stt['i'], len(seq) - 1)]
+                    tokobj.f[('kind',)] = ev(prog, 'TIDENT' if k == 'X' else k); tokobj.f[('lit',)] = None
+                    tokobj.f[('loc', 'file')] = None; tokobj.f[('loc', 'line')] = 1; tokobj.f[('loc', 'col')] = 1
+                def nxt(i2, a_, e): stt['i'] += 1; load(); return None
+                def expr(i2, a_, e):
+                    if seq[stt['i']] != 'X': raise Terminal('error', 'expected expression')
+                    nxt(i2, a_, e); return idx
+                def expect(i2, a_, e):
+                    if tokobj.f[('kind',)] != a_[0]: raise Terminal('error', 'expected token')
+                    nxt(i2, a_, e); return None
+                it.models.update({'next': nxt, 'expr': expr, 'expect': expect, 'free': lambda i2, a_, e: None, 'xmalloc': lambda i2, a_, e: Ptr(Obj('heap@%s' % e.get('line'), 'heap'), ()),
+                                  'error': lambda i2, a_, e: (_ for _ in ()).throw(Terminal('error', cmodel.fmt_of(i2, a_, 1))),
+                                  'fatal': lambda i2, a_, e: (_ for _ in ()).throw(Terminal('fatal', cmodel.fmt_of(i2, a_, 0)))})
+                load()
+                e = it.call(pf, [Ptr(Obj('scope', 'heap'), ()), base])
+                ty = it.load(e.obj, ('type',))
+                pointee = {'ptr_int': 'int', 'ptr_long': 'long', 'ptr_struct': 'struct'}
+                want_t = T[pointee[a]] if a in pointee else T[pointee[b]]
+                isderef = it.load(e.obj, ('kind',)) == ev(prog, 'EXPRUNARY') and it.load(e.obj, ('op',)) == ev(prog, 'TMUL')
+                return ty.obj is want_t.obj, bool(it.load(e.obj, ('lvalue',))), isderef
+            runs = explore(prog, runner, {}, max_runs=4, on_unsupported='keep')
+            if len(runs) != 1 or runs[0].outcome == 'unsupported':
+                raise AnalysisBroken('postfixexpr subscript %s[%s]: %s' % (a, b, runs[0].detail if runs else 'no run'))
+            objp = ('ptr_int', 'ptr_long', 'ptr_struct'); ints = ('int', 'long', 'uchar')
+            ok = (a in objp and b in ints) or (b in objp and a in ints)
+            run = runs[0]
+            if ok:
+                r.instance(run.outcome == 'return' and run.value == (True, True, True), 'subscript:%s[%s]' % (a, b), 'expr.c:%s' % pf.get('line'), 'valid: expected an lvalue indirection of the pointed-to type; got %s %s' % (run.outcome, run.value if run.outcome == 'return' else run.detail))
+            else:
+                r.instance(run.outcome == 'terminal:error', 'subscript:%s[%s]' % (a, b), 'expr.c:%s' % pf.get('line'), 'constraint violation must be diagnosed; got %s' % (run.value if run.outcome == 'return' else run.outcome,))
+    r.exhaustive = True
+
+
 def run(chk, tier):
     from props import c01f
     prog = facts.programs()['cproc-qbe']
@@ -678,5 +730,6 @@ def run(chk, tier):
     chk.guard('C10.i', lambda: rule_casts(chk, prog, tier))
     chk.guard('C10.j', lambda: rule_assign_constraints(chk, prog, tier))
     chk.guard('C10.k', lambda: rule_redeclared(chk, prog, tier))
+    chk.guard('C10.l', lambda: rule_subscript(chk, prog, tier))
     from props import c09
     chk.guard('C09.f', lambda: c09.rule_redecl_types(chk, prog, tier))
